@@ -16,9 +16,12 @@ KillClauses(r) ==
   \cup (IF r.latestErr # "" \/ r.latestErrAfterRestart # "" THEN {"C08_StatusQueryFails"} ELSE {})
   \cup (IF r.restartExit # 0 \/ ~r.restartRan \/ r.restartHist # 1 \/ r.latestAfterRestart # "finished" THEN {"C08_CannotBeStartedAgain"} ELSE {})
   \cup (IF ~r.killed /\ r.latest # "finished" THEN {"C08_FinishedRunNotReportedFinished"} ELSE {})
-Active(r) == r.afterProbe /\ ~r.afterShutdown           \* the first run had begun and had not yet given up its socket
+\* the first start had committed itself to being the run of the file (it holds the address lock or, without such a lock,
+\* has made its probe) and had not yet given up its socket
+Active(r) == r.committed /\ ~r.afterShutdown
 SecondClauses(r) ==
-  (IF Active(r) /\ r.runsThatExecuted >= 2 THEN {"C16_BothExecuted"} ELSE {})
+  \* a second start that had to wait for the held first one (address lock) and ran after it had ended is not an overlap
+  (IF Active(r) /\ r.runsThatExecuted >= 2 /\ (~r.secondBlocked \/ r.interleaved) THEN {"C16_BothExecuted"} ELSE {})
   \cup (IF r.exitB # 0 /\ r.histNewDuringB > 0 THEN {"C16_RefusedStartRecordedRun"} ELSE {})
   \cup (IF r.exitA # 0 \/ r.statusEnd # "finished" \/ r.statusEndErr # "" THEN {"C16_ActiveRunDisturbed"} ELSE {})
   \cup (IF r.runsThatExecuted = 0 THEN {"C16_NobodyRan"} ELSE {})
